@@ -18,10 +18,33 @@ TAGS = [('<', '>')] * 7 + [('{', '}'), ('[', ']'), ('|', '|'), ('(', ')'), ('«'
 UIDS = ['a', 'b', 'c', 'd', 'e', 'f', '1', '2', 1, 2, 3, 'uid-7', 'Ü', '', 0, ('t', 2), ('solo',)]
 
 
+class UserRegexChecker(RegexChecker):
+    """a user's own checker classes: subclasses that change nothing (a checker is recognised by what it is an instance of)"""
+
+
+class UserExactChecker(StringExactChecker):
+    pass
+
+
+class UserFuzzyChecker(StringFuzzyChecker):
+    pass
+
+
+class UserRulesChecker(RulesChecker):
+    pass
+
+
+USER_CHECKERS = {'KR': UserRegexChecker, 'KX': UserExactChecker, 'KF': UserFuzzyChecker, 'KU': UserRulesChecker}
+_made = [0]
+
+
 def make_checker(k, cache=None):
+    """the checker of kind k; every fifth one is an instance of a user subclass of the shipped class"""
+    _made[0] += 1
+    classes = USER_CHECKERS if _made[0] % 5 == 0 else CHECKERS
     if k == 'KR' and cache is not None:
-        return RegexChecker(cache[0])
-    return CHECKERS[k]()
+        return classes[k](cache[0])
+    return classes[k]()
 
 
 def gen_store_case(rng, k=None, npol=None, store=None, inq=None):
